@@ -16,6 +16,9 @@ KEY_EDGES = [0, 1, 2, 3, 5, 8, 9, 10, 11, 12, 13, 17, 18, 19, 20, 21, 25, 26, 27
              57, 58, 59, 60, 73, 74, 75, 76, 89, 90, 105, 106, 107, 108, 121, 122, 123, 124, 125, 126, 127, 128, 129,
              249, 250, 251, 252, 376, 377, 378, 379, 380, 1000, 1015, 1016, 1017]
 
+# keys whose record needs a LARGE slot (>= 1024 bytes: the shared first-fit free list of the key file)
+KEY_BIG = [1005, 1006, 1100, 1150, 1500, 2000, 3000, 4090]
+
 
 def vu64(v):
     if v < 0x80: return bytes([v])
@@ -64,7 +67,7 @@ class G:
         keys = set()
         while len(keys) < size:
             if kt in ('string', 'bytes'):
-                ln = r.choice(KEY_EDGES if long_keys else KEY_EDGES[:40]) if r.random() < 0.8 else r.randrange(0, 64)
+                ln = r.choice((KEY_EDGES + KEY_BIG + KEY_BIG) if long_keys else KEY_EDGES[:40]) if r.random() < 0.8 else r.randrange(0, 64)
                 if kt == 'string':
                     k = bytes(r.choice(b'abcdefghijklmnopqrstuvwxyzABC0123456789_-') for _ in range(ln))
                 else:
